@@ -124,8 +124,20 @@ def rule_systematic_forward(rep: Report, fi: FuncInfo) -> int:
     rep.expect(len(rets) == 1 and unparse(rets[0].value) == "codewords" and len(stores) == 2, "SYSTEMATIC", cl, f"{len(stores)} scatter stores, returns {unparse(rets[0].value) if rets else '?'}", "nothing else touches the codeword", "additional stores or another return value in the systematic encoder", node=cl.node)
     n += 3
     # no branch keyed on the values of the information set
+    SETS = ("self.information_set", "self._information_set", "self.parity_set", "self._info_set_config")
+    derived = set()
+    grew = True
+    while grew:
+        grew = False
+        for a_ in ast.walk(fi.node):
+            if isinstance(a_, ast.Assign) and any((attr_chain(x) in SETS) or (isinstance(x, ast.Name) and x.id in derived) for x in ast.walk(a_.value)):
+                for t_ in a_.targets:
+                    for x in ast.walk(t_):
+                        if isinstance(x, ast.Name) and x.id not in derived and x.id not in ("codewords",):
+                            derived.add(x.id)
+                            grew = True
     for c in ast.walk(fi.node):
-        if isinstance(c, (ast.If, ast.IfExp)) and any(attr_chain(x) in ("self.information_set", "self._information_set", "self.parity_set", "self._info_set_config") for x in ast.walk(c.test)):
+        if isinstance(c, (ast.If, ast.IfExp)) and any((attr_chain(x) in SETS) or (isinstance(x, ast.Name) and x.id in derived) for x in ast.walk(c.test)):
             rep.violation("SYSTEMATIC", fi, f"if {unparse(c.test)}", "the encoder branches on the values of the information set: a shortcut valid only for some index lists (the scatter above is correct for every list)", node=c)
             n += 1
     chk = [s for s in fi.body if isinstance(s, ast.If) and any(isinstance(x, ast.Raise) for x in s.body)]
